@@ -107,25 +107,38 @@ pub mod vsync {
     use std::cell::UnsafeCell;
 
     /// `std::sync::OnceLock` whose initialisation race is decided by the shuttle scheduler.
-    /// The Once state is per execution, so every execution sees a first use.
+    /// Like shuttle's own `lazy_static`, the value lives in the *execution's* storage: every
+    /// execution sees a first use, and the value is dropped when its execution ends - not in
+    /// the middle of the next one, where a channel endpoint or lock inside it would wake tasks
+    /// that merely share the numbers of the tasks it once knew.
     pub struct OnceLock<T> {
         once: shuttle::sync::Once,
-        val: UnsafeCell<Option<T>>,
         /// used instead when called from a real OS thread outside the simulation
         real: std::sync::OnceLock<T>,
     }
+    struct Slot<T>(T);
     unsafe impl<T: Send + Sync> Sync for OnceLock<T> {}
     unsafe impl<T: Send> Send for OnceLock<T> {}
-    impl<T> OnceLock<T> {
+    impl<T: 'static> OnceLock<T> {
         pub const fn new() -> Self {
-            OnceLock { once: shuttle::sync::Once::new(), val: UnsafeCell::new(None), real: std::sync::OnceLock::new() }
+            OnceLock { once: shuttle::sync::Once::new(), real: std::sync::OnceLock::new() }
+        }
+        fn key(&self) -> shuttle_engine::runtime::storage::StorageKey {
+            shuttle_engine::runtime::storage::StorageKey(self as *const _ as usize, 0x51)
+        }
+        fn stored(&self) -> Option<&T> {
+            let key = self.key();
+            shuttle_engine::runtime::execution::ExecutionState::with(|s| {
+                // the slot is never removed before the execution ends, and never moved
+                s.get_storage::<_, Slot<T>>(key).map(|slot| unsafe { &*(&slot.0 as *const T) })
+            })
         }
         pub fn get(&self) -> Option<&T> {
             if !crate::in_shuttle() {
                 return self.real.get();
             }
             if self.once.is_completed() {
-                unsafe { (*self.val.get()).as_ref() }
+                self.stored()
             } else {
                 None
             }
@@ -134,22 +147,30 @@ pub mod vsync {
             if !crate::in_shuttle() {
                 return self.real.get_or_init(f);
             }
-            self.once.call_once(|| unsafe { *self.val.get() = Some(f()) });
-            unsafe { (*self.val.get()).as_ref().expect("OnceLock initialised") }
+            let key = self.key();
+            self.once.call_once(|| {
+                let value = f();
+                shuttle_engine::runtime::execution::ExecutionState::with(|s| s.init_storage(key, Slot(value)));
+            });
+            self.stored().expect("OnceLock initialised")
         }
         pub fn set(&self, value: T) -> Result<(), T> {
             if !crate::in_shuttle() {
                 return self.real.set(value);
             }
+            let key = self.key();
             let mut v = Some(value);
-            self.once.call_once(|| unsafe { *self.val.get() = v.take() });
+            self.once.call_once(|| {
+                let value = v.take().unwrap();
+                shuttle_engine::runtime::execution::ExecutionState::with(|s| s.init_storage(key, Slot(value)));
+            });
             match v {
                 None => Ok(()),
                 Some(v) => Err(v),
             }
         }
     }
-    impl<T> Default for OnceLock<T> {
+    impl<T: 'static> Default for OnceLock<T> {
         fn default() -> Self {
             Self::new()
         }
@@ -166,7 +187,7 @@ pub mod vsync {
         init: F,
     }
     unsafe impl<T: Send + Sync, F: Send + Sync> Sync for LazyLock<T, F> {}
-    impl<T, F: Fn() -> T> LazyLock<T, F> {
+    impl<T: 'static, F: Fn() -> T> LazyLock<T, F> {
         pub const fn new(f: F) -> Self {
             LazyLock { cell: OnceLock::new(), init: f }
         }
@@ -174,7 +195,7 @@ pub mod vsync {
             this.cell.get_or_init(|| (this.init)())
         }
     }
-    impl<T, F: Fn() -> T> std::ops::Deref for LazyLock<T, F> {
+    impl<T: 'static, F: Fn() -> T> std::ops::Deref for LazyLock<T, F> {
         type Target = T;
         fn deref(&self) -> &T {
             LazyLock::force(self)
